@@ -133,6 +133,56 @@ func init() {
 			c.Fail("C16c/GetNextEpoch/start+length-of-same-block", c.P.Pos(gne.Pos()), "the next epoch is not the epoch start of the block plus the epoch length in force at that block")
 		}
 
+		c.Rule("C16f derived boundaries: GetPreviousEpochStartForBlock resolves the previous epoch as GetEpochStartForBlock(epoch start of the block − 1), i.e. through the same source and the parameters in force there, not by subtracting the current epoch's length; GetCurrentNextEpoch uses the raw (un-fixated) epoch length only under EarliestStart == StartBlock and otherwise GetNextEpoch(current height)")
+		if gp := c.Fn(esK + "GetPreviousEpochStartForBlock"); gp != nil {
+			ok := false
+			for _, r := range c.AllReturns(gp) {
+				ret := r.Instr.(*ssa.Return)
+				if ret.Block() == gp.Recover {
+					continue
+				}
+				for _, lf := range phiLeaves(RetVal(ret, 0)) {
+					d := ir.DescN(lf, 10)
+					if d == "call("+esK+"GetEpochStartForBlock)(recv,param#0,(call("+esK+"GetEpochStartForBlock)(recv,param#0,param#1)#0 - const(1)))#0" {
+						ok = true
+					} else if d != "const(0)" {
+						ok = false
+						c.Fail("C16f/GetPreviousEpochStartForBlock/previous=start-of(start−1)", c.P.InstrPos(ret), "the previous epoch start is computed as "+trunc(d, 160)+": with a changed epoch length this is a block on which no epoch start ran")
+					}
+				}
+			}
+			if ok {
+				c.OK("C16f/GetPreviousEpochStartForBlock/previous=start-of(start−1)", c.P.Pos(gp.Pos()), "")
+			}
+			c.RequireNoUnsignedWrap("C16f", esK+"GetPreviousEpochStartForBlock", 1)
+		}
+		if gc := c.Fn(esK + "GetCurrentNextEpoch"); gc != nil {
+			nraw := 0
+			ir.EachInstr(gc, func(in ssa.Instruction) {
+				call := ir.CallOf(in)
+				if call == nil || ir.CalleeName(call) != "x/epochstorage/keeper.CalculateNextEpochBlock" {
+					return
+				}
+				nraw++
+				if ir.HasFact(ir.GuardFacts(in), ".EarliestStart == ", ".StartBlock)") && strings.Contains(ir.Desc(call.Args[1]), "EpochBlocksRaw)(") {
+					c.OK("C16f/GetCurrentNextEpoch/raw-length-only-in-genesis-epoch", c.P.InstrPos(in), "")
+				} else {
+					c.Fail("C16f/GetCurrentNextEpoch/raw-length-only-in-genesis-epoch", c.P.InstrPos(in), "the un-fixated epoch length is used outside EarliestStart == StartBlock: a pending parameter change moves the reported next epoch off the grid")
+				}
+			})
+			okNext := false
+			for _, s := range c.CallsByName(gc, false, esK+"GetNextEpoch") {
+				if ir.Desc(ir.CallOf(s.Instr).Args[2]) == "conv<uint64>(call(github.com/cosmos/cosmos-sdk/types.Context.BlockHeight)(param#0))" {
+					okNext = true
+				}
+			}
+			if nraw == 1 && okNext {
+				c.OK("C16f/GetCurrentNextEpoch/otherwise-GetNextEpoch(current)", c.P.Pos(gc.Pos()), "")
+			} else {
+				c.Fail("C16f/GetCurrentNextEpoch/otherwise-GetNextEpoch(current)", c.P.Pos(gc.Pos()), "the next epoch of the current block is not taken from GetNextEpoch(current height)")
+			}
+		}
+
 		c.Rule("C16d epoch start processing order: EpochStart fixates parameters for the current block before it advances the earliest epoch; PushFixatedParams records the current block as the fixation block of the new version")
 		fx := c.CallsByName(eps, false, esK+"FixateParams")
 		up := c.CallsByName(eps, false, esK+"UpdateEarliestEpochstart")
